@@ -19,7 +19,9 @@ def prepare(sc: Scratch) -> dict:
     prep.update({
         "target_dir": CACHE / "target-session",
         "specs": specs,
-        "jobs": {"quick": 8, "thorough": 8},
+        # MiniSat decides these pointer-heavy, arithmetic-light instances 4-10x faster than Kani's default CaDiCaL (measured)
+        "kani_args": ["--solver", "minisat"],
+        "jobs": {"quick": 13, "thorough": 8},
         "assumptions": session.SESSION_SHIM_ASSUMPTIONS,
         "evidence_extra": {
             "encoded_files": ["runtime/sessions/pavex_session/src/session_.rs", "incoming.rs", "wire.rs", "store_.rs", "id.rs", "config/*.rs", "lib.rs"],
